@@ -1885,3 +1885,39 @@ pub mod sweep {
 		out
 	}
 }
+
+/// `WorldSpec::build` with the signer's revocation policy check switched off for the `cheaters` (their
+/// monitors would otherwise refuse, by panicking, to sign second-stage transactions of a state the node
+/// itself published after revoking it).
+pub fn build_world_with_cheaters(spec: &WorldSpec, keep_images: bool, cheaters: Vec<usize>) -> Sim {
+	let n = spec.topo.nodes();
+	let cfg = spec.user_config();
+	let w = World::new(WorldCfg {
+		n,
+		configs: vec![cfg; n],
+		keep_images,
+		deferred_monitor: spec.deferred,
+		connect_style: connect_style_of(spec.connect_style),
+		node_styles: spec.node_styles.iter().map(|s| connect_style_of(*s)).collect(),
+		disable_revocation_policy: cheaters,
+	});
+	for nd in w.nodes.iter() {
+		*nd.fee_estimator.sat_per_kw.lock().unwrap() = spec.feerate;
+		let mut ov = nd.fee_estimator.target_override.lock().unwrap();
+		ov.insert(lightning::chain::chaininterface::ConfirmationTarget::MinAllowedAnchorChannelRemoteFee, 253);
+		ov.insert(lightning::chain::chaininterface::ConfirmationTarget::MinAllowedNonAnchorChannelRemoteFee, 253);
+		ov.insert(lightning::chain::chaininterface::ConfirmationTarget::ChannelCloseMinimum, 253);
+	}
+	let mut sim = Sim::new(w);
+	if spec.ctype != CType::Static {
+		sim.fund_wallets(2);
+	}
+	for (i, (a, b)) in spec.topo.channels().iter().enumerate() {
+		let v = spec.value_sat[i % spec.value_sat.len()];
+		let want = v * spec.push_permille[i % spec.push_permille.len()] as u64;
+		let keep_sat = (v / 5).max(10_000);
+		let push = want.min((v - keep_sat) * 1000);
+		sim.open_channel(*a, *b, v, push);
+	}
+	sim
+}
